@@ -425,3 +425,79 @@ Proof.
   unfold p1, p2. rewrite !upd_body_length. reflexivity.
 Qed.
 End Prog.
+
+(* ---------------------------------------------------------------- fuel: the only fuel-dependent outcome is OutOfFuel *)
+Section MonoK.
+Variable structs : structs_t.
+Variables callf callf' : nat -> list value -> list line -> res (value * list value).
+Hypothesis Hc : cle callf callf'.
+
+Lemma exec_mono_k : forall s k k' en out, k <= k' ->
+  rle (exec structs callf k s en out) (exec structs callf' k' s en out).
+Proof.
+  pose proof (eval_mono structs callf callf' Hc) as Em.
+  induction s as [|a IHa b IHb|x t e|x e|x f e|c a IHa b IHb|c body IHb|x t lo hi incl step body IHb| | |oe|es|e|a IHa];
+    intros k k' en out Hk; cbn.
+  - apply rle_refl.
+  - apply rle_bind; [apply IHa; assumption|]. intros [en' fl] out'. destruct fl; try apply rle_refl. apply IHb; assumption.
+  - mono Em.
+  - mono Em.
+  - mono Em.
+  - apply rle_bind; [apply Em|]. intros rc out'.
+    destruct (fst rc) as [| [|] | | |]; try apply rle_refl;
+      (apply rle_bind; [solve [apply IHa; assumption | apply IHb; assumption]|intros; apply rle_refl]).
+  - generalize Hk. generalize k at 1 3 as n0. generalize k' at 1 3 as n0'.
+    intros n0' n0 Hn0. revert en out n0' Hn0.
+    induction n0 as [|n IHn]; intros en out n0' Hn0; [left; reflexivity|].
+    destruct n0' as [|n']; [inversion Hn0|]. apply le_S_n in Hn0.
+    apply rle_bind; [apply Em|]. intros rc out'.
+    destruct (fst rc) as [| [|] | | |]; try apply rle_refl.
+    apply rle_bind; [apply IHb; assumption|]. intros r out''. destruct (snd r); try apply rle_refl; apply IHn; assumption.
+  - apply rle_bind; [apply Em|]. intros rlo o1.
+    apply rle_bind; [apply Em|]. intros rhi o2.
+    apply rle_bind; [apply Em|]. intros rst o3.
+    destruct (fst rlo); try apply rle_refl. destruct (fst rhi); try apply rle_refl. destruct (fst rst); try apply rle_refl.
+    generalize (snd rst) as en1. generalize v as i.
+    generalize Hk. generalize k at 1 3 as n0. generalize k' at 1 3 as n0'.
+    intros n0' n0 Hn0. revert o3 n0' Hn0.
+    induction n0 as [|n IHn]; intros o3 n0' Hn0 i en1; [left; reflexivity|].
+    destruct n0' as [|n']; [inversion Hn0|]. apply le_S_n in Hn0.
+    destruct (for_cond incl v1 i v0); [|apply rle_refl].
+    apply rle_bind; [apply IHb; assumption|]. intros r out''. destruct (snd r); try apply rle_refl; apply IHn; assumption.
+  - apply rle_refl.
+  - apply rle_refl.
+  - destruct oe; mono Em.
+  - generalize (@nil item) as acc. revert en out.
+    induction es as [|e1 r IHr]; intros en out acc; [apply rle_refl|].
+    apply rle_bind; [apply Em|]. intros r1 o1. destruct (item_of (fst r1)); [apply IHr|apply rle_refl].
+  - mono Em.
+  - apply rle_bind; [apply IHa; assumption|intros; apply rle_refl].
+Qed.
+End MonoK.
+
+Lemma call_mono_fuel structs p : forall fuel fuel', fuel <= fuel' -> cle (call structs p fuel) (call structs p fuel').
+Proof.
+  induction fuel as [|f IH]; intros fuel' H g vs out; [left; reflexivity|].
+  destruct fuel' as [|f']; [inversion H|]. apply le_S_n in H.
+  cbn [call]. destruct (nth_error p g); [|apply rle_refl].
+  destruct (bind_params (fparams f0) vs); [|apply rle_refl].
+  apply rle_bind; [apply exec_mono_k; [apply IH; assumption|assumption]|intros; apply rle_refl].
+Qed.
+
+(* more fuel never changes an outcome other than OutOfFuel *)
+Theorem run_fuel_independent structs p fuel fuel' :
+  fuel <= fuel' -> run structs p fuel <> OutOfFuel -> run structs p fuel' = run structs p fuel.
+Proof.
+  intros H Hr. unfold run in *.
+  destruct (call_mono_fuel structs p fuel fuel' H (length p - 1) [] []) as [E|E].
+  - rewrite E in Hr. contradiction.
+  - rewrite E. reflexivity.
+Qed.
+
+Corollary run_finished_agree structs p f1 f2 :
+  run structs p f1 <> OutOfFuel -> run structs p f2 <> OutOfFuel -> run structs p f1 = run structs p f2.
+Proof.
+  intros H1 H2. destruct (Nat.le_ge_cases f1 f2) as [H|H].
+  - symmetry. apply run_fuel_independent; assumption.
+  - apply run_fuel_independent; assumption.
+Qed.
